@@ -215,13 +215,24 @@ impl Scenario for WalletScenario {
                 // tip update variants
                 6 => {
                     ctx.op("update_tip");
-                    let v = ch.below("variant", 3);
+                    let v = ch.below("variant", 4);
                     let h = match v {
                         0 => tip,
                         1 => tip.saturating_sub(ch.below("behind", 5) as u32).max(base + 1),
+                        // the wallet was closed and is reopened with the tip about one pruning depth above what it scanned
+                        3 => {
+                            let maxs = s.scanned.iter().next_back().copied().unwrap_or(base);
+                            let h = maxs + 98 + ch.below("around_pruning_depth", 5) as u32;
+                            if h <= tip && h > base {
+                                ctx.probe("tip_about_one_pruning_depth_above_max_scanned");
+                                h
+                            } else {
+                                tip
+                            }
+                        }
                         _ => tip,
                     };
-                    if s.dirty_fork.is_none() || v == 0 {
+                    if s.dirty_fork.is_none() || v == 0 || h == tip {
                         match s.update_tip(h) {
                             Ok(()) => ctx.event(format!("update_chain_tip({h})")),
                             Err(e) => return ctx.report(Violation::new("update_chain_tip_succeeds", format!("update_chain_tip({h}): {e}"))),
